@@ -35,6 +35,35 @@ def handle1 (o : Op) : String :=
         match Blowfish.newSaltedCipher key salt with
         | none => "err mutated=none"
         | some c => runBlocks 8 (Blowfish.encrypt c) (Blowfish.decrypt c) src
+    | "blowfish-expand" =>
+      -- exported `ExpandKey(key, c)` applied to a constructed cipher (init=std) or to the zero value
+      -- `new(blowfish.Cipher)` (init=zero), once per entry of `ek`; an empty entry indexes key[0]: panic
+      match o.hex? "salt", o.get? "ek" with
+      | some salt, some ekStr =>
+        let eks : Option (List Bytes) := if ekStr == "none" then some [] else (ekStr.splitOn ",").mapM ofHex
+        match eks with
+        | none => "bad-op"
+        | some eks =>
+          let c0 : Option Blowfish.Box :=
+            if o.str "init" == "zero" then some (Array.replicate 1042 0) else Blowfish.newSaltedCipher key salt
+          match c0 with
+          | none => "err mutated=none"
+          | some c0 =>
+            if eks.any (·.isEmpty) then "panic"
+            else
+              let c := eks.foldl (fun c ek => Blowfish.expandKey ek.toArray c) c0
+              runBlocks 8 (Blowfish.encrypt c) (Blowfish.decrypt c) src
+      | _, _ => "bad-op"
+    | "cast5-zero" =>   -- `new(cast5.Cipher)`: all masking and rotation sub-keys zero
+      let ks : List Cast5.RK := (List.range 16).map (fun i => ⟨i % 3 + 1, 0, 0⟩)
+      runBlocks 8 (Cast5.encrypt ks) (Cast5.decrypt ks) src
+    | "twofish-zero" => -- `new(twofish.Cipher)`: zero S-boxes and sub-keys
+      let z : Array UInt32 := Array.replicate 256 0
+      let c : Twofish.Cipher := ⟨z, z, z, z, Array.replicate 40 0⟩
+      runBlocks 16 (Twofish.encrypt c) (Twofish.decrypt c) src
+    | "xtea-zero" =>    -- `new(xtea.Cipher)`: zero table
+      let t : List (UInt32 × UInt32) := List.replicate 32 (0, 0)
+      runBlocks 8 (Xtea.encrypt t) (Xtea.decrypt t) src
     | "cast5" =>
       match Cast5.newCipher key with
       | none => "err mutated=none"
